@@ -72,10 +72,11 @@ def minimise(plan, key, max_trials=120):
         had = False
         for o in plan['ops']:
             o2 = copy.deepcopy(o)
-            nested = [p['op'] for p in o2.get('points', []) if p.get('op')]
+            nested = [p['op'] for p in o2.get('points', []) + (o2.get('cpoints') or []) if p.get('op')]
             if nested:
                 had = True
                 o2['points'] = [p for p in o2['points'] if p['kind'] != 'nest']
+                o2['cpoints'] = [p for p in (o2.get('cpoints') or []) if p['kind'] != 'nest']
             flat.append(o2)
             flat.extend(nested)
         if had:
@@ -112,14 +113,26 @@ def minimise(plan, key, max_trials=120):
                 if fails(plan, key) is None:
                     pts[:] = saved
                     i += 1
+            cps = op.get('cpoints') or []
+            i = 0
+            while i < len(cps) and budget[0] > 0:
+                saved = list(cps)
+                del cps[i]
+                op['cpoints'] = cps
+                budget[0] -= 1
+                if fails(plan, key) is None:
+                    cps[:] = saved
+                    i += 1
+            pts = pts + cps
             # nested op's own points
             for p in pts:
-                if p.get('op') and p['op'].get('points') and budget[0] > 0:
-                    saved = p['op']['points']
+                if p.get('op') and (p['op'].get('points') or p['op'].get('cpoints')) and budget[0] > 0:
+                    saved = (p['op']['points'], p['op'].get('cpoints'))
                     p['op']['points'] = []
+                    p['op']['cpoints'] = []
                     budget[0] -= 1
                     if fails(plan, key) is None:
-                        p['op']['points'] = saved
+                        p['op']['points'], p['op']['cpoints'] = saved
             if op.get('clock') and budget[0] > 0:
                 saved = op['clock']
                 op['clock'] = []
